@@ -753,3 +753,129 @@ def _np_zeros(interp, args, kwargs):
     if kwargs or not isinstance(k, int) or k < 0:
         raise Unsupported('np.zeros shape')
     return CArr([SFloat(0, False, 'npfloat') for _ in range(k)], 'float')
+
+
+# ---------------------------------------------------------------------------------------------
+# sorting of concrete-length sequences; distinct values of a small-domain integer array
+# ---------------------------------------------------------------------------------------------
+
+def _finite_reals(ctx, el, what):
+    """real terms of the elements; NaN must be excluded (the order of NaN under np.sort is not modelled)"""
+    out = []
+    for v in el:
+        n, r = to_real_parts(v)
+        ok = z3.simplify(z3.Not(n)) if not isinstance(n, bool) else z3.BoolVal(not n)
+        if not z3.is_true(ok):
+            ctx.oblige(f'safe.{what}_of_nan', ok)
+            ctx.assume(ok)
+        out.append(r)
+    return out
+
+
+def _sorted_terms(r):
+    """compare-exchange network (bubble): the ascending rearrangement of the real terms r, as ite-terms"""
+    s = list(r)
+    for a in range(len(s)):
+        for j in range(len(s) - 1 - a):
+            lo, hi = z3.If(s[j] <= s[j + 1], s[j], s[j + 1]), z3.If(s[j] <= s[j + 1], s[j + 1], s[j])
+            s[j], s[j + 1] = lo, hi
+    return s
+
+
+@model('numpy.sort', 'np.sort(a) of a 1-D sequence of k NaN-free numbers (k concrete): the same values in ascending order')
+def _np_sort(interp, args, kwargs):
+    (x,) = args
+    el = _elements(x)
+    if kwargs or el is None:
+        raise Unsupported('np.sort shape')
+    r = _finite_reals(interp.ctx, el, 'sort')
+    return CArr([SFloat(t, False, 'npfloat') for t in _sorted_terms(r)], 'float')
+
+
+@model('numpy.argsort', 'np.argsort(a) of a 1-D sequence of k NaN-free numbers (k concrete): SOME permutation p of 0..k-1 with '
+       'a[p[0]] <= a[p[1]] <= ... (the order among equal values is left open)')
+def _np_argsort(interp, args, kwargs):
+    (x,) = args
+    el = _elements(x)
+    if kwargs or el is None:
+        raise Unsupported('np.argsort shape')
+    ctx = interp.ctx
+    r = _finite_reals(ctx, el, 'argsort')
+    k = len(r)
+    s = _sorted_terms(r)
+    p = [fresh_int(f'argsort{j}') for j in range(k)]
+    for j in range(k):
+        ctx.assume(z3.And(p[j] >= 0, p[j] < k))
+        sel = r[k - 1]
+        for c in range(k - 2, -1, -1):
+            sel = z3.If(p[j] == c, r[c], sel)
+        ctx.assume(sel == s[j])
+    if k > 1:
+        ctx.assume(z3.Distinct(*p))
+    return CArr([SInt(t, 'npint') for t in p], 'int')
+
+
+def _carr_setitem(self, ctx, idx, val):
+    if isinstance(idx, int) and is_numlike(val):
+        if not -len(self.items) <= idx < len(self.items):
+            from .engine import PyRaise
+            raise PyRaise('IndexError', 'CArr store index')
+        self.items[idx] = val
+        return
+    raise Unsupported('CArr store kind')
+
+
+CArr.sym_setitem = _carr_setitem
+
+
+def distinct_count(ctx, x, dom):
+    """integer term: the number of values v in dom that occur in the int array x.  Definitional extension: for every v a fresh Bool
+    occ_v with  occ_v => x[w_v] == v  (w_v a fresh row)  and  for all rows r: x[r] == v => occ_v."""
+    at = x.at
+    total = 0
+    for v in dom:
+        occ, w = smt.fresh(f'occurs_{v}', z3.BoolSort()), fresh_int(f'row_of_{v}')
+        ctx.assume(z3.Implies(occ, z3.And(w >= 0, w < x.n, to_int_term(at(w)) == v)))
+        ctx.assume(smt.Forall(0, x.n, lambda r, v=v, occ=occ: z3.Implies(to_int_term(at(r)) == v, occ), name=f'occ{v}'))
+        ctx.hint(w)
+        total = total + z3.If(occ, 1, 0)
+    return total
+
+
+class SUnique(Model):
+    """np.unique(a) of an integer array whose values lie in a small known domain: only its length is modelled"""
+    pytype = 'ndarray'
+
+    def __init__(self, count):
+        self.count = count
+
+    def sym_len(self, ctx):
+        return SInt(self.count)
+
+
+@model('numpy.unique', 'len(np.unique(a)) of a 1-D int array a whose values lie in a finite domain D (proved at the call): the number of '
+       'values v in D with a[r] == v for some row r')
+def _np_unique(interp, args, kwargs):
+    (x,) = args
+    ctx = interp.ctx
+    dom = ctx.ghost.get('int_domain')
+    if kwargs or not (isinstance(x, SArr) and x.dtype == 'int') or not dom:
+        raise Unsupported('np.unique of this value')
+    at = x.at
+    ind = smt.Forall(0, x.n, lambda r: z3.Or(*[to_int_term(at(r)) == v for v in dom]))
+    ctx.oblige('safe.unique_domain', ind)
+    ctx.assume(ind)
+    total = distinct_count(ctx, x, dom)
+    return SUnique(total)
+
+
+@model('numpy.isclose', 'np.isclose(a, b) of two scalars with the default tolerances: |a - b| <= 1e-8 + 1e-5 * |b|; False if either is NaN')
+def _np_isclose(interp, args, kwargs):
+    if kwargs or len(args) != 2 or not all(is_numlike(x) for x in args):
+        raise Unsupported('np.isclose of these values')
+    (na, a), (nb, b) = to_real_parts(args[0]), to_real_parts(args[1])
+    d = z3.If(a - b >= 0, a - b, b - a)
+    absb = z3.If(b >= 0, b, -b)
+    close = d <= z3.RealVal('1/100000000') + z3.RealVal('1/100000') * absb
+    nan = z3.Or(na if not isinstance(na, bool) else z3.BoolVal(na), nb if not isinstance(nb, bool) else z3.BoolVal(nb))
+    return SBool(z3.And(z3.Not(nan), close), 'npbool')
